@@ -118,7 +118,8 @@ func next(key string, random func() uint64) uint64 {
 // Symbolic reports whether the harness runs under the symbolic engine.
 func Symbolic() bool { return false }
 
-func Bool() bool { return BoolK("") }
+func Bool() bool    { return BoolK("") }
+func SymBool() bool { return BoolK("") }
 func BoolK(key string) bool {
 	return next(key, func() uint64 { return uint64(rng.Intn(2)) }) != 0
 }
